@@ -151,6 +151,48 @@ def body_api(case, rec):
         rec.note(case, nontrivial(classes), classes | {"completed"})
 
 
+def body_reuse(case, rec):
+    """
+    The same IndexedAssembly object is remapped with a first map (often in Target mode) and then with the
+    case's own map; the second result is judged as usual (nothing of the first run may stick to the input).
+    """
+    classes = {"input_reused"}
+    first = dict(case, map=case["first_map"])
+    input_asm, _p = remap.build_inputs(case)
+    try:
+        remap.run_api(first, input_asm=input_asm)
+    except Exception:  # noqa: BLE001
+        classes.add("first_run_error")
+    try:
+        res = remap.run_api(case, input_asm=input_asm)
+    except Exception as e:  # noqa: BLE001
+        rec.note(case, False, classes | {"error", "error_" + type(e).__name__})
+        return
+    outs = [(key_lc(k), s.name, conv.plain_rows(s.rows, with_tags=False)) for k, s in res.all_scaffolds()]
+    try:
+        judge(case, outs, classes)
+    finally:
+        rec.note(case, True, classes | {"completed"})
+
+
+@st.composite
+def reuse_cases(draw):
+    c = draw(gen.tagged_case(two_haplotypes=False, target_mode=False, max_scaffolds=5, max_contigs=4))
+    # first map on the same input: Target mode, only some scaffolds present (the others are "absent from the map")
+    first = []
+    names = [n for n, _r in c["input"]]
+    lengths = {n: ref.rows_len(r) for n, r in c["input"]}
+    for k, n in enumerate(names):
+        if draw(st.booleans()):
+            tags = ["Target"] if k == 0 or draw(st.booleans()) else []
+            first.append([f"Scaffold_{len(first) + 1}", [["F", n, 1, lengths[n], 1, tags]]])
+    if not first:
+        first.append(["Scaffold_1", [["F", names[0], 1, lengths[names[0]], 1, ["Target"]]]])
+    first[0][1][0][5] = ["Target"]
+    c["first_map"] = first
+    return c
+
+
 FILE_WORDS = {"haplotig": ("haplotigs",), "contaminant": ("contaminants",), "falseduplicate": ("falseduplicates",)}
 
 
@@ -206,6 +248,8 @@ def body_cli(case, rec):
 SUBS = [
     Sub("api", kind="hyp", strategy=gen.tagged_case, body=body_api,
         budget={"quick": 16000, "thorough": 300000}, desc="dict returned by assemblies_with_scaffolds_fused vs expected destination per piece"),
+    Sub("reuse", kind="hyp", strategy=reuse_cases, body=body_reuse,
+        budget={"quick": 4000, "thorough": 60000}, desc="the same IndexedAssembly object remapped twice (first in Target mode with scaffolds absent, then with the case's map): the second result is judged"),
     Sub("cli_primary", kind="hyp", strategy=lambda: gen.tagged_case(max_scaffolds=5, max_contigs=4, two_haplotypes=True, primary_mode=True, piece_tag_weight=3), body=body_cli,
         budget={"quick": 160, "thorough": 2000}, desc="Primary mode (one curated haplotype) through the CLI: primary / all_haplotigs / haplotigs / contaminants / falseduplicates files"),
     Sub("cli", kind="hyp", strategy=lambda: gen.tagged_case(max_scaffolds=4, max_contigs=5), body=body_cli,
